@@ -87,6 +87,7 @@ class WRec(World):
       A(("upd P%d boss=%d" % (r, r), [["UpdateRecord", "People", r, {"boss": r}]]))
     for r in P[:1]:
       A(("upd P%d name" % r, [["UpdateRecord", "People", r, {"name": "zed"}]]))
+      A(("upd P%d defaults" % r, [["UpdateRecord", "People", r, {"name": "", "age": 0, "team": 0}]]))
       if not self.reduced:
         A(("upd P%d tags dup" % r, [["UpdateRecord", "People", r, {"tags": ["L", "b", "b"]}]]))
         A(("upd P%d age=None" % r, [["UpdateRecord", "People", r, {"age": None}]]))
@@ -511,15 +512,18 @@ def _trig_cols(doc):
   def col(cid, when):
     return ["AddColumn", "T", cid, {"type": "Int", "isFormula": False, "formula": TRIG_F,
                                     "recalcWhen": when}]
+  err = ["AddColumn", "T", "t_err", {"type": "Int", "isFormula": False, "recalcWhen": 0,
+                                     "formula": "(value or 0) + 1 if $a != 2 else 1/0"}]
+  g = ["AddColumn", "T", "g", {"type": "Any", "isFormula": True, "formula": "$t_err"}]
   return [col("t_def", 0), col("t_never", 1), col("t_manual", 2), col("t_onc", 0), col("t_new", 0),
-          col("t_self", 0)]
+          col("t_self", 0), err, g]
 
 
 def _trig_deps(doc):
   a, c, s = (col_ref(doc, 'T', x) for x in ('a', 'c', 't_self'))
   upd = lambda cid, deps: ["UpdateRecord", "_grist_Tables_column", col_ref(doc, 'T', cid),
                            {"recalcDeps": ["L"] + deps}]
-  return [upd("t_def", [a]), upd("t_onc", [c]), upd("t_self", [s, a])]
+  return [upd("t_def", [a]), upd("t_onc", [c]), upd("t_self", [s, a]), upd("t_err", [a])]
 
 
 TRIG_SETUP = [
@@ -560,6 +564,10 @@ class WTrig(World):
       if ht('t_def') and ht('a'):
         A(("upd T%d a=9 t_def=70" % r, [["UpdateRecord", "T", r, {"a": 9, "t_def": 70}]]))
         A(("upd T%d t_def=70" % r, [["UpdateRecord", "T", r, {"t_def": 70}]]))
+        # a trigger cell holding the type default is omitted from the undo of a row removal
+        A(("upd T%d t_def=0" % r, [["UpdateRecord", "T", r, {"t_def": 0}]]))
+      if ht('t_onc'):
+        A(("upd T%d t_onc=0" % r, [["UpdateRecord", "T", r, {"t_onc": 0}]]))
       if ht('t_self'):
         A(("upd T%d t_self=40" % r, [["UpdateRecord", "T", r, {"t_self": 40}]]))
       if ht('t_manual'):
@@ -577,6 +585,7 @@ class WTrig(World):
       if ht('a'):
         A(("rencol T.a->aa", [["RenameColumn", "T", "a", "aa"]]))
         A(("modcol T.a Numeric", [["ModifyColumn", "T", "a", {"type": "Numeric"}]]))
+        A(("modcol T.a Text", [["ModifyColumn", "T", "a", {"type": "Text"}]]))
       if ht('t_def'):
         cr = col_ref(doc, 'T', 't_def')
         A(("t_def recalcWhen=NEVER", [["UpdateRecord", "_grist_Tables_column", cr, {"recalcWhen": 1}]]))
